@@ -4,6 +4,7 @@ package fix
 
 import (
 	"errors"
+	"sync"
 
 	"golang.org/x/crypto/cryptobyte"
 )
@@ -265,4 +266,34 @@ func FlatMethodValue(n int) ([]byte, error) {
 	b := cryptobyte.NewBuilder(nil)
 	b.AddUint8LengthPrefixed(a.bump)
 	return b.Bytes()
+}
+
+func lockedGet(m *sync.Mutex, p *int) int {
+	m.Lock()
+	defer m.Unlock()
+	return *p
+}
+
+// FlatDefer calls a helper whose only defer is registered unconditionally.
+func FlatDefer(m *sync.Mutex, p *int) int {
+	return lockedGet(m, p) + 1
+}
+
+func watch(done <-chan struct{}, stopped chan<- struct{}, flag *bool) {
+	defer close(stopped)
+	<-done
+	*flag = true
+}
+
+// FlatGo starts a declared function as a goroutine.
+func FlatGo() bool {
+	done := make(chan struct{})
+	stopped := make(chan struct{})
+	var flag bool
+	go watch(done, stopped, &flag)
+	defer func() {
+		close(done)
+		<-stopped
+	}()
+	return flag
 }
